@@ -72,13 +72,22 @@ Theorem C17_q2_redelivery_released : forall ls k m d s evs,
                  (evs ++ [Deliver k m (entitled (hist_of ls) k)]).
 Proof. exact q2_publish_then_release. Qed.
 
-(* scope (and a finding about /repo, see notes/C17.md): the store of received QoS 2 messages is a
-   local of serve(), i.e. it belongs to ONE connection object. If the connection is cut after the
-   PUBREC reached the broker, the broker resends only the PUBREL on the next connection; there the
-   release is not enabled: no hand-over (and no PUBCOMP) ever happens for that message *)
-Theorem C17_q2_pending_not_carried_over :
-  run (U_handle (Some 1) :: conn 0 ++ [B_q2_publish 0 7 false; R_end 0] ++ conn 1 ++ [B_q2_release 1 7]) = Disabled.
-Proof. exact q2_pending_not_carried_over. Qed.
+(* received QoS 2 messages are SESSION state (MQTT 3.1.1 4.1; /repo since 9cd7f01, finding F21): a
+   QoS 2 PUBLISH processed on connection k (PUBREC sent) and not yet released is released by a PUBREL
+   on ANY connection k' of the session whose reader runs — the same, or one created by any number of
+   later SetClient/Connect (reconnects, also attempts that never got a CONNACK) — provided no PUBREL
+   for m and no clean-session connect came in between ([keeps]): it is handed to the handler the
+   message is entitled to THEN (for the current connection: the latest registered one), exactly once
+   (a repeated PUBREL is not enabled: nothing is handed over twice); the release step is the
+   hand-over followed by PUBCOMP (serve.go:126-143) *)
+Theorem C17_q2_released_on_any_later_connection : forall pre k m d mid s evs k' c',
+  run (pre ++ B_q2_publish k m d :: mid) = Next s evs ->
+  forallb (keeps m) mid = true ->
+  nth_error (clients s) k' = Some c' -> reader_runs (c_phase c') = true ->
+  (exists s', run ((pre ++ B_q2_publish k m d :: mid) ++ [B_q2_release k' m]) =
+              Next s' (evs ++ [Deliver k' m (entitled (hist_of (pre ++ B_q2_publish k m d :: mid)) k')])) /\
+  run ((pre ++ B_q2_publish k m d :: mid) ++ [B_q2_release k' m; B_q2_release k' m]) = Disabled.
+Proof. exact q2_released_on_later_connection. Qed.
 
 (* ... and it never blocks the reader or the RetryClient: no schedule of the model deadlocks
    (the reader does not hold its client's lock while the handler runs) *)
@@ -148,13 +157,14 @@ Theorem C17_breakages_refuted :
   (exists ls, (exists s evs, run_loop ls = Next s evs) /\
               run_gen v_lock_through_callback ls = Deadlocked) /\
   (exists ls, (exists s evs, run_loop ls = Next s evs) /\ run_gen v_q2_dup_not_stored ls = Disabled) /\
+  (exists ls, (exists s evs, run_loop ls = Next s evs) /\ run_gen v_q2_store_per_connection ls = Disabled) /\
   (exists ls, breaks v_q2_handler_at_publish ls) /\
   (forall ls, ~ breaks faithful ls).
 Proof.
   repeat split; [exact no_install_refuted|exact late_install_refuted|exact first_only_refuted|
                  exact no_forward_refuted|exact store_if_no_client_refuted|exact no_store_refuted|
                  exact setclient_clears_refuted|exact lock_through_callback_refuted|exact q2_dup_not_stored_refuted|
-                 exact q2_handler_at_publish_refuted|exact faithful_not_broken].
+                 exact q2_store_per_connection_refuted|exact q2_handler_at_publish_refuted|exact faithful_not_broken].
 Qed.
 
 Print Assumptions C17_handler_installed.
@@ -164,7 +174,7 @@ Print Assumptions C17_delivery.
 Print Assumptions C17_delivery_reentrant.
 Print Assumptions C17_delivery_q2_at_release.
 Print Assumptions C17_q2_redelivery_released.
-Print Assumptions C17_q2_pending_not_carried_over.
+Print Assumptions C17_q2_released_on_any_later_connection.
 Print Assumptions C17_no_deadlock.
 Print Assumptions C17_delivery_every_connection.
 Print Assumptions C17_delivery_every.
